@@ -2,8 +2,9 @@
    Statements are pinned by coq/statements/C14.json; ./check compares. *)
 From Coq Require Import Bool List NArith ZArith Lia.
 From M Require IntFmtProofs.
-From M Require IntFmt.
+From M Require IntRoundTrip.
 From M Require FmtModel.
+From M Require IntFmtProofs.
 Import ListNotations.
 
 Module T_int2str_exact. Import IntFmtProofs. Local Open Scope bool_scope. Local Open Scope Z_scope.
@@ -17,12 +18,22 @@ Proof. exact (@IntFmtProofs.int2str_exact). Qed.
 End T_int2str_exact.
 Definition C14_int2str_exact := @T_int2str_exact.C14_int2str_exact.
 
-Module T_emit_digits_fix. Import IntFmt. Local Open Scope bool_scope. Local Open Scope Z_scope.
-Local Open Scope Z_scope.
-Theorem C14_emit_digits_fix :
-  forall k base u, 2 <= base -> 0 <= u < base ^ Z.of_nat (S k) ->
-  emit (S k) base u (base ^ Z.of_nat k) = digits_fix (S k) base u.
-Proof. exact (@IntFmt.emit_digits_fix). Qed.
-End T_emit_digits_fix.
-Definition C14_emit_digits_fix := @T_emit_digits_fix.C14_emit_digits_fix.
+Module T_top_spec. Import IntFmtProofs. Local Open Scope bool_scope. Local Open Scope Z_scope.
+Import FmtModel. Local Open Scope Z_scope.
+Theorem C14_top_spec :
+  forall fuel b u, 2 <= b -> 0 < u -> u < b ^ Z.of_nat fuel ->
+  b ^ Z.of_nat (top fuel b u) <= u < b ^ Z.of_nat (S (top fuel b u)).
+Proof. exact (@IntFmtProofs.top_spec). Qed.
+End T_top_spec.
+Definition C14_top_spec := @T_top_spec.C14_top_spec.
+
+Module T_rt_unsigned. Import IntRoundTrip. Local Open Scope bool_scope. Local Open Scope Z_scope.
+Import FmtModel IntFmtProofs. Local Open Scope Z_scope.
+Theorem C14_rt_unsigned :
+  forall b u rest,
+  (b = 2 \/ b = 8 \/ b = 10 \/ b = 16) -> 0 < u < 2^64 -> stops b rest ->
+  digs b (canon_digits b u ++ rest) 0 0 = (u, Z.of_nat (length (canon_digits b u))).
+Proof. exact (@IntRoundTrip.rt_unsigned). Qed.
+End T_rt_unsigned.
+Definition C14_rt_unsigned := @T_rt_unsigned.C14_rt_unsigned.
 
